@@ -11,11 +11,13 @@ import (
 	"math/rand"
 	"os"
 	"os/exec"
+	"os/signal"
 	"path/filepath"
 	"regexp"
 	"sort"
 	"strings"
 	"sync"
+	"syscall"
 	"time"
 
 	"github.com/thomasjungblut/go-sstables/simpledb"
@@ -59,6 +61,7 @@ func e2Session(args []string) int {
 		return 3
 	}
 	ctl := &e2ctl{f: f}
+	signal.Ignore(syscall.SIGXFSZ)
 	for _, p := range e2HookPoints {
 		p := p
 		simpledb.VerifSetPoint(p, func() { ctl.mark("HOOK %s", p) })
@@ -70,10 +73,7 @@ func e2Session(args []string) int {
 	}
 	opIdx := 0
 	sessions := 2 + r.Intn(2)
-	if *bigSync {
-		sessions = 1
-	}
-	if *big {
+	if *big || *bigSync {
 		sessions = 2 // a small clean session first: the big one then runs in a directory that was used before
 	}
 	for s := 0; s < sessions; s++ {
@@ -88,15 +88,25 @@ func e2Session(args []string) int {
 			Async: *mode == "async",
 		}
 		nops := 40 + r.Intn(110)
+		// c17: half of the sessions run without the background compactor and contain ONE Put whose WAL append fails
+		// half way (RLIMIT_FSIZE just above the current size of the WAL file, SIGXFSZ ignored => EFBIG / short write)
+		faultSession := *mode == "c17" && r.Intn(2) == 0
+		faultAt := -1
+		if faultSession {
+			o.Live = false
+			faultAt = 5 + r.Intn(nops-5)
+		}
+		afterFault := 0
 		bigNow := *big && s == 1
-		if *big && s == 0 {
+		bigSyncNow := *bigSync && s == 1
+		if (*big || *bigSync) && s == 0 {
 			nops = 5 + r.Intn(10)
 		}
 		if bigNow {
 			o.Memstore = 16 << 20
 			nops = 90 + r.Intn(40)
 		}
-		if *bigSync {
+		if bigSyncNow {
 			o.Memstore = 64 << 20
 			nops = 10 + r.Intn(6)
 		}
@@ -116,6 +126,39 @@ func e2Session(args []string) int {
 			kind := "put"
 			var v []byte
 			x := r.Intn(100)
+			if i == faultAt {
+				waitFlushIdle(30 * time.Second)
+				v = gen.Bytes(r, 700+r.Intn(3000))
+				var sz int64
+				if ents, err := os.ReadDir(filepath.Join(*dir, "wal")); err == nil {
+					for _, e := range ents {
+						if fi, err := e.Info(); err == nil && fi.Size() > sz {
+							sz = fi.Size()
+						}
+					}
+				}
+				ctl.mark("INV %d faultput %s %s", opIdx, hex.EncodeToString([]byte(k)), hex.EncodeToString(v))
+				var old syscall.Rlimit
+				_ = syscall.Getrlimit(syscall.RLIMIT_FSIZE, &old)
+				_ = syscall.Setrlimit(syscall.RLIMIT_FSIZE, &syscall.Rlimit{Cur: uint64(sz) + uint64(30+r.Intn(300)), Max: old.Max})
+				e := db.PutBytes([]byte(k), v)
+				_ = syscall.Setrlimit(syscall.RLIMIT_FSIZE, &old)
+				if e != nil {
+					ctl.mark("ACK %d err %s", opIdx, strings.ReplaceAll(e.Error(), "\n", " "))
+					afterFault = 1 + r.Intn(3)
+				} else {
+					ctl.mark("ACK %d ok", opIdx)
+				}
+				opIdx++
+				continue
+			}
+			if afterFault > 0 {
+				// one to three more calls (they may or may not fail, whatever they return is what counts), then restart
+				afterFault--
+				if afterFault == 0 {
+					i = nops
+				}
+			}
 			switch {
 			case x < 22:
 				kind = "del"
@@ -137,7 +180,7 @@ func e2Session(args []string) int {
 				if bigNow {
 					n = 64*1024 + r.Intn(192*1024)
 					v = gen.Bytes(r, n) // incompressible: the WAL is snappy-compressed
-				} else if *bigSync && r.Intn(2) == 0 {
+				} else if bigSyncNow && r.Intn(2) == 0 {
 					v = gen.Bytes(r, 4300*1024+r.Intn(1700*1024))
 				} else {
 					v = []byte(fmt.Sprintf("s%d.%d-%s", s, i, strings.Repeat("y", n)))
@@ -172,6 +215,12 @@ func e2Session(args []string) int {
 		}
 		ctl.mark("PHASE close-begin")
 		if err := db.Close(); err != nil {
+			if faultSession {
+				// after a failed WAL write the writer stays in its error state: Close reports it, the process goes on
+				// (the directory is then re-opened like after a kill)
+				ctl.mark("PHASE close-failed-after-fault %s", strings.ReplaceAll(err.Error(), "\n", " "))
+				continue
+			}
 			ctl.mark("FATAL close %s", strings.ReplaceAll(err.Error(), "\n", " "))
 			return 5
 		}
@@ -331,6 +380,7 @@ type e2Op struct {
 
 // e2State follows the markers of a session log.
 type e2State struct {
+	faulted  bool // a WAL write failed in this session: later errors are expected until the next Open
 	ops      []e2Op
 	model    map[string]*string // state after all ACKed, successful operations (hex key -> hex value)
 	inflight int                // index of the op with INV but no ACK, -1 if none
@@ -372,7 +422,10 @@ func (s *e2State) marker(m string) {
 		op := &s.ops[s.inflight]
 		op.Done = true
 		op.Err = len(f) >= 3 && f[2] == "err"
-		if op.Err && op.Kind != "badput" {
+		if op.Err && op.Kind == "faultput" {
+			s.faulted = true // the WAL writer is in its error state until the next Open
+		}
+		if op.Err && op.Kind != "badput" && !s.faulted {
 			s.opErrUnexpected = append(s.opErrUnexpected, m)
 		}
 		if !op.Err {
@@ -386,6 +439,9 @@ func (s *e2State) marker(m string) {
 			s.open++
 		case "open-done":
 			s.open--
+			s.faulted = false
+		case "close-failed-after-fault":
+			s.closing--
 		case "close-begin":
 			s.closing++
 		case "close-done":
@@ -413,7 +469,7 @@ func (s *e2State) marker(m string) {
 
 func e2Apply(m map[string]*string, op e2Op) {
 	switch op.Kind {
-	case "put":
+	case "put", "faultput":
 		v := op.V
 		m[op.K] = &v
 	case "del":
